@@ -427,7 +427,10 @@ func (p *Packer) Unpack(r io.Reader, dst string) error {
 
 		// Handle symlinks, directories, non-regular files
 		if info.IsSymlink() {
-			if ok, err := p.validSymlink(dst, header.Name, header.Linkname); ok {
+			// The link is judged where it is created: info.Path is the cleaned
+			// location below dst, whatever the spelling of the entry name
+			// (leading "/", "./", ...).
+			if ok, err := p.validSymlink(dst, info.Path, header.Linkname); ok {
 				// Create the symlink.
 				if err = os.Symlink(header.Linkname, info.Path); err != nil {
 					return fmt.Errorf("failed creating symlink (%q -> %q): %w",
